@@ -299,6 +299,9 @@ def monitor(case, iout, prop):
             elif c == "E":
                 r = a[0]; e = flat(R[r])[a[1]]
                 if d.get("elem") != "%d:%d" % e or d.get("view") != "%d:%d" % e: fail(i, "element(i)/view[i] != i-th element of the batch sequence")
+                if d.get("din") != "%d:%d" % e: fail(i, "inputs().element(i) / labels().element(i) give %s, the i-th element of the batch sequence is %d:%d" % ((d.get("din"),) + e))
+                if d.get("crange") != str(len(flat(R[r]))): fail(i, "a const element range converted from elements() iterates %s elements, the dataset has %d" % (d.get("crange"), len(flat(R[r]))))
+                if d.get("cidx") != str(a[1]) or d.get("cderef") != str(e[0]): fail(i, "a const element iterator converted from begin()+%d reports index %s / element %s" % (a[1], d.get("cidx"), d.get("cderef")))
             elif c == "J":
                 r = a[0]; e = flat(R[r]); idx = a[1] - a[3] if a[2] else a[1] + a[3]
                 if int(d["idx"]) != idx: fail(i, "iterator index wrong")
